@@ -19,6 +19,7 @@ KNOWN_LOOPS = {
     'dfa_algorithms.py:dfa_isomorphic': 'search',
     'dfa_algorithms.py:dfa_isomorphic1': 'search',
     'dfa_algorithms.py:dfa_hopfcroft': 'hopcroft',
+    'cfg_algorithms.py:cfg_derivable_variables': 'search',
     'cfg_algorithms.py:cfg_derive_word': 'tree',
     'cfg_algorithms.py:cfg_derive_word.extract_derivation': 'tree',
 }
@@ -43,14 +44,72 @@ def _emptiness_names(test):
     return out
 
 
+def is_count_loop(loop):
+    """for <name> in itertools.count() / count(0) / count(0, 1): an unbounded loop with a built-in pass counter from 0"""
+    if not (isinstance(loop, ast.For) and isinstance(loop.target, ast.Name) and isinstance(loop.iter, ast.Call) and not loop.iter.keywords):
+        return False
+    fn = loop.iter.func
+    nm = fn.id if isinstance(fn, ast.Name) else (fn.attr if isinstance(fn, ast.Attribute) and u(fn.value) == 'itertools' else None)
+    if nm != 'count':
+        return False
+    args = loop.iter.args
+    return len(args) <= 2 and all(isinstance(a, ast.Constant) for a in args) and [a.value for a in args] in ([], [0], [0, 1])
+
+
+def _negated_conj(e):
+    """conjuncts of `not e`"""
+    if isinstance(e, ast.UnaryOp) and isinstance(e.op, ast.Not):
+        v = e.operand
+        return list(v.values) if isinstance(v, ast.BoolOp) and isinstance(v.op, ast.And) else [v]
+    if isinstance(e, ast.BoolOp) and isinstance(e.op, ast.Or):
+        return [x for v in e.values for x in _negated_conj(v)]
+    if isinstance(e, ast.Compare) and len(e.ops) == 1:
+        flip = {ast.Lt: ast.GtE, ast.LtE: ast.Gt, ast.Gt: ast.LtE, ast.GtE: ast.Lt, ast.Eq: ast.NotEq, ast.NotEq: ast.Eq,
+                ast.In: ast.NotIn, ast.NotIn: ast.In, ast.Is: ast.IsNot, ast.IsNot: ast.Is}
+        return [ast.copy_location(ast.Compare(left=e.left, ops=[flip[type(e.ops[0])]()], comparators=e.comparators), e)]
+    return [ast.copy_location(ast.UnaryOp(op=ast.Not(), operand=e), e)]
+
+
+def loop_conj(loop):
+    """The conjuncts under which the loop goes on: those of a while test, and the negations of the tests of the break
+    guards that open the body (`while True:` / `for k in count():` followed by `if not todo: break`, `ok = k < limit`,
+    `if not ok: break`).  Named conditions defined between the guards are replaced by their definitions."""
+    out = []
+    test = getattr(loop, 'test', None)
+    if test is not None and not (isinstance(test, ast.Constant) and test.value is True):
+        out.extend(test.values if isinstance(test, ast.BoolOp) and isinstance(test.op, ast.And) else [test])
+    if isinstance(loop, ast.While) and out:
+        return out
+    env = {}
+    for st in loop.body:
+        if isinstance(st, ast.Assign) and len(st.targets) == 1 and isinstance(st.targets[0], ast.Name) and isinstance(st.value, (ast.Compare, ast.BoolOp, ast.UnaryOp)) \
+                and not any(isinstance(x, ast.Call) and not (isinstance(x.func, ast.Name) and x.func.id == 'len') for x in ast.walk(st.value)):
+            env[st.targets[0].id] = st.value
+            continue
+        if isinstance(st, ast.If) and not st.orelse and len(st.body) == 1 and isinstance(st.body[0], ast.Break):
+            t = st.test
+            if isinstance(t, ast.Name) and t.id in env:
+                t = env[t.id]
+            elif isinstance(t, ast.UnaryOp) and isinstance(t.op, ast.Not) and isinstance(t.operand, ast.Name) and t.operand.id in env:
+                t = ast.copy_location(ast.UnaryOp(op=ast.Not(), operand=env[t.operand.id]), t)
+            out.extend(_negated_conj(t))
+            continue
+        if isinstance(st, ast.Expr) and isinstance(st.value, ast.Constant):
+            continue
+        break
+    return out
+
+
 def find_worklist_loops(ctx, f):
-    """while-loops whose condition tests a collection for emptiness and whose body removes an element from it"""
+    """loops whose continuation condition tests a collection for emptiness and whose body removes an element from it"""
     out = []
     for loop in walk_no_nested(f.node):
-        if not isinstance(loop, ast.While):
+        if not (isinstance(loop, ast.While) or is_count_loop(loop)):
             continue
-        cands = _emptiness_names(loop.test)
-        if isinstance(loop.test, ast.Constant) and loop.test.value is True:
+        cands = set()
+        for c in loop_conj(loop):
+            cands |= _emptiness_names(c)
+        if isinstance(loop, ast.While) and isinstance(loop.test, ast.Constant) and loop.test.value is True:
             # while True: ... if not wl: break
             for st in loop.body:
                 if isinstance(st, ast.If) and any(isinstance(b, ast.Break) for b in st.body):
@@ -261,13 +320,39 @@ def check_search_loop(ctx, rep, wl: WLoop):
     markers = set()
     for (st, kind, expr) in sites:
         nid = cfg.n_of(st)
-        atoms = fx.guard_atoms(nid)
+        atoms = list(fx.guard_atoms(nid))
+        # an element drawn from a difference  `for x in A - S`  is not in S (the difference is a new set, computed before
+        # the loop over it starts; its elements are pairwise distinct, so marking one does not affect the others)
+        if isinstance(expr, ast.Name):
+            for lp in walk_no_nested(f.node):
+                if isinstance(lp, ast.For) and isinstance(lp.target, ast.Name) and lp.target.id == expr.id and any(x is st for x in ast.walk(lp)):
+                    it = lp.iter
+                    if isinstance(it, ast.Name):
+                        ds = _single_def(f, it.id)
+                        it = ds[0].value if len(ds) == 1 else it
+                    if isinstance(it, ast.BinOp) and isinstance(it.op, ast.Sub):
+                        atoms.append(('in', expr.id, u(it.right), False))
+                    elif isinstance(it, ast.Call) and isinstance(it.func, ast.Attribute) and it.func.attr == 'difference' and len(it.args) == 1:
+                        atoms.append(('in', expr.id, u(it.args[0]), False))
+        # guard at the pop: `x = wl.pop(); if x not in seen: seen.add(x); wl.extend(successors of x)` -- every element is
+        # EXPANDED at most once, however often it is enqueued, so the search terminates and misses nothing
+        pop_names = {u(v) for (_, v) in wl.pops if v is not None}
+        pg = [a for a in atoms if a[0] == 'in' and a[3] is False and a[1] in pop_names]
+        if pg:
+            marker = pg[0][2]
+            ups = [m for m in _marker_updates(loop, marker) if m[1] is not None and _norm_key(m[1]) == _norm_key(pg[0][1])]
+            if ups:
+                markers.add(marker)
+                rep.holds(RULE + '.W2', f, st, 'expansion dominated by `{} not in {}` on the popped element, and {} is updated with it: every element is expanded at most once'.format(pg[0][1], marker, marker))
+                continue
         if kind == 'one':
             ok = None
             for a in atoms:
                 if a[0] == 'in' and _derives_from(f, a[1], expr):
                     marker = a[2]
                     if a[3] is True:
+                        if not _marker_updates(loop, marker):
+                            continue        # a presence test on a map the loop never updates (a successor table), not a seen-marker
                         ok = ('bad', 'the first-visit guard `{} in {}` has positive polarity: only already-seen elements are enqueued'.format(a[1], marker))
                         break
                     ups = [m for m in _marker_updates(loop, marker) if m[1] is not None and (_norm_key(m[1]) == _norm_key(a[1]) or _derives_pop(f, m[1], popvars))]
@@ -299,6 +384,8 @@ def check_search_loop(ctx, rep, wl: WLoop):
                 seen_test = [a for a in atoms if (a[0] == 'in' and a[2] == ok[1]) or (a[0] == 'truthy' and a[1].startswith(ok[1] + '['))]
                 drops = _silent_drop_atoms(fx, nid, expr, seen_test[0] if seen_test else None, f, loop)
                 drops = [d for d in drops if not (d[0] == 'in' and d[2] in markers)]
+                # a condition on the POPPED element (does it have successors at all?) drops no successor
+                drops = [d for d in drops if not (len(d) > 1 and d[1] in pop_names)]
                 if drops:
                     d = drops[0]
                     rep.violates(RULE + '.W2', f, st, 'besides the first-visit test the enqueue of {} depends on a further condition on the successor ({} {}), whose failure silently drops an unseen element: reachable elements can be missed'.format(
@@ -376,8 +463,7 @@ def check_exits(ctx, rep, wl: WLoop):
     """W4: the only exits are 'worklist empty', an explicit return, or a counter bound read from GambaTools at
     call time whose counter advances once per popped element and allows at least `limit` pops."""
     f, loop = wl.f, wl.loop
-    test = loop.test
-    conj = test.values if isinstance(test, ast.BoolOp) and isinstance(test.op, ast.And) else [test]
+    conj = loop_conj(loop)
     others = []
     for c in conj:
         names = _emptiness_names(c)
@@ -425,6 +511,10 @@ def _counter_bound(ctx, f, loop, c):
         if isinstance(limexpr, ast.BinOp):
             return False, 'the bound {} is not the configured limit itself: fewer than `limit` configurations may be expanded'.format(u(limexpr))
         return None, 'limit expression {} is not a GambaTools setting'.format(u(limexpr))
+    if is_count_loop(loop) and loop.target.id == counter:
+        if any(isinstance(x, ast.Name) and x.id == counter and isinstance(x.ctx, ast.Store) and x is not loop.target for x in ast.walk(loop)):
+            return False, 'the pass counter {} of the count() loop is overwritten inside the loop'.format(counter)
+        return True, 'bound `{} {} {}`: limit read from GambaTools inside the body, the pass counter of count() starts at 0 and advances once per pop, so at least `limit` elements are expanded'.format(counter, '<' if isinstance(op, ast.Lt) else '<=', u(lim))
     # counter initialised to 0 before the loop
     inits = [d for d in _single_def(f, counter) if not _inside(loop, d)]
     if len(inits) != 1 or not (isinstance(inits[0].value, ast.Constant) and inits[0].value.value == 0):
